@@ -15,6 +15,17 @@ for _p in ("C01", "C08"):
     REGISTRY[_p] = _vector_prop(_p)
 
 
+def _set_prop(prop):
+    def fn(report, tier):
+        from . import setprops
+        setprops.check_set_property(prop, report, tier, extra_files=(["HintTV.v"] if prop in ("C12", "C19") else []))
+    return fn
+
+
+for _p in ("C12", "C19"):
+    REGISTRY[_p] = _set_prop(_p)
+
+
 def _lazy(mod):
     def fn(report, tier):
         import importlib
@@ -22,7 +33,7 @@ def _lazy(mod):
     return fn
 
 
-for _p, _m in (("C18", "c18"), ("C17", "c17"), ("C20", "c20")):
+for _p, _m in (("C18", "c18"), ("C17", "c17"), ("C20", "c20"), ("C15", "c15")):
     REGISTRY[_p] = _lazy(_m)
 
 
@@ -42,6 +53,9 @@ def replay(prop, payload):
         if m is not None and prop == "C17" and "row" in payload:
             r = payload["row"]
             return m.replay_row(r["kind"], r["s"], r["a"], r["N"], r["st"], payload.get("std", "c++17")) or 0
+    if "script" in payload and "config" in payload and payload["config"] in __import__("lib.setgen", fromlist=["CONFIGS"]).CONFIGS:
+        from . import setprops
+        return setprops.replay(prop, payload)
     if "script" in payload and "config" in payload and payload["config"] in __import__("lib.vecgen", fromlist=["CONFIGS"]).CONFIGS:
         res = vecrun.run_scripts([(payload["config"], ["H replay"] + payload["script"])])
         for name, hs, err, berr in res:
